@@ -216,6 +216,32 @@ fn int_pair<const N: usize, const M: usize>(sa: usize, va: &[i32], sb: usize, vb
     if !ok {
         return Err(format!("buffer == [U; K] / &[U; K] / &mut [U; K] disagrees with the sequences {:?} vs {:?}", va, vb));
     }
+    // primitive element types (an implementation may compare them in bulk): i32, u8, bool, char and ()
+    {
+        let (pa, pb) = (build::<N, i32>(sa, va, JUNK), build::<M, i32>(sb, vb, JUNK));
+        if (pa == pb) != eq || pa.partial_cmp(&pb) != Some(ord) || (pa == vb[..]) != eq {
+            return Err(format!("i32 elements: == / partial_cmp / == slice disagree with the sequences {:?} vs {:?}", va, vb));
+        }
+        let (ua, ub): (Vec<u8>, Vec<u8>) = (va.iter().map(|v| *v as u8).collect(), vb.iter().map(|v| *v as u8).collect());
+        let (qa, qb) = (build::<N, u8>(sa, &ua, 0xEE), build::<M, u8>(sb, &ub, 0xEE));
+        if (qa == qb) != eq || qa.partial_cmp(&qb) != Some(ord) || (qa == ub[..]) != eq || (qa == &ub[..]) != eq {
+            return Err(format!("u8 elements: == / partial_cmp / == slice disagree with the sequences {:?} vs {:?}", ua, ub));
+        }
+        let (ba, bb): (Vec<bool>, Vec<bool>) = (va.iter().map(|v| *v != 0).collect(), vb.iter().map(|v| *v != 0).collect());
+        let (ra, rb) = (build::<N, bool>(sa, &ba, true), build::<M, bool>(sb, &bb, true));
+        if (ra == rb) != (ba == bb) || ra.partial_cmp(&rb) != ba.partial_cmp(&bb) || (ra == bb[..]) != (ba == bb) {
+            return Err(format!("bool elements: == / partial_cmp disagree with the sequences {:?} vs {:?}", ba, bb));
+        }
+        let (ca, cb): (Vec<char>, Vec<char>) = (va.iter().map(|v| char::from(b'a' + *v as u8)).collect(), vb.iter().map(|v| char::from(b'a' + *v as u8)).collect());
+        let (ka, kb) = (build::<N, char>(sa, &ca, 'z'), build::<M, char>(sb, &cb, 'z'));
+        if (ka == kb) != eq || ka.partial_cmp(&kb) != Some(ord) {
+            return Err(format!("char elements: == / partial_cmp disagree with the sequences {:?} vs {:?}", ca, cb));
+        }
+        let (za, zb) = (build::<N, ()>(sa, &vec![(); va.len()], ()), build::<M, ()>(sb, &vec![(); vb.len()], ()));
+        if (za == zb) != (va.len() == vb.len()) || za.partial_cmp(&zb) != Some(va.len().cmp(&vb.len())) {
+            return Err(format!("() elements: == / partial_cmp disagree with the lengths {} vs {}", va.len(), vb.len()));
+        }
+    }
     // homogeneous side: Ord, Eq and Hash need the same type and (for Ord/Hash) the same capacity
     let b2 = build::<M, A>(sb, &vb.iter().map(|v| A(*v)).collect::<Vec<_>>(), A(JUNK));
     if (a == b2) != eq {
